@@ -1193,6 +1193,37 @@ def ch_stdlib_annotated(c: Ctx):
     return "func-stdlib-annotation-" + wrap, names, lines
 
 
+REBOUND = [
+    ("typing", "Deque", "collections", "deque", "deque[int]"),
+    ("typing", "DefaultDict", "collections", "defaultdict", "defaultdict[str, int]"),
+    ("typing", "ContextManager", "contextlib", "AbstractContextManager", "AbstractContextManager[int]"),
+    ("typing", "AsyncContextManager", "contextlib", "AbstractAsyncContextManager", "AbstractAsyncContextManager[int]"),
+]
+
+
+def ch_rebound_import(c: Ctx):
+    """One local name bound by two import lines of the header: `from typing import Deque as deque` and `from collections
+    import deque` (the same class under both spellings, so the module stays mypy-clean), in either order; the name is then
+    used in annotations. The stub's import of that name must be one that exists."""
+    free = [r for r in REBOUND if r[3] not in getattr(c, "rebound", [])]
+    fn = c.fresh("f")
+    if not free:
+        c.kinds.append("function")
+        c.meta[fn] = "func-plain-after-rebound"
+        return c.meta[fn], [fn], ["def %s(x: int = 0) -> int:" % fn, "    return x"]
+    m1, orig, m2, name, ann = c.pick(free)
+    c.rebound = getattr(c, "rebound", []) + [name]
+    order = c.pick(["aliased-then-plain", "aliased-then-plain", "plain-then-aliased"])
+    a, b = "from %s import %s as %s" % (m1, orig, name), "from %s import %s" % (m2, name)
+    for line in ([a, b] if order == "aliased-then-plain" else [b, a]):
+        c.add_import(line)
+    lines = ["def %s(x: %s, y: %s | None = None) -> %s:" % (fn, ann, ann, ann), "    return x"]
+    c.meta[fn] = "func-rebound-import-" + order
+    c.kinds.append("function")
+    c.nontrivial = True
+    return c.meta[fn], [fn], lines
+
+
 def ch_pkg_use(c: Ctx):
     """Uses the class imported from a sibling module of the package."""
     imp = c.pkg_import
@@ -1218,7 +1249,7 @@ def ch_pkg_use(c: Ctx):
 
 CHUNKS = [
     (ch_function, 5), (ch_class, 5), (ch_variables, 3), (ch_dataclass, 3), (ch_enum, 2), (ch_namedtuple, 2), (ch_typeddict, 2),
-    (ch_overload, 2), (ch_generic, 3), (ch_alias, 2), (ch_conditional, 2), (ch_nested, 1), (ch_decorated, 2), (ch_stdlib_annotated, 3), (ch_generator_func, 1),
+    (ch_overload, 2), (ch_generic, 3), (ch_alias, 2), (ch_conditional, 2), (ch_nested, 1), (ch_decorated, 2), (ch_stdlib_annotated, 3), (ch_generator_func, 1), (ch_rebound_import, 2),
 ]
 CHUNK_BY_NAME = {f.__name__[3:]: f for f, _ in CHUNKS}
 CHUNK_BY_NAME["pkg_use"] = ch_pkg_use
